@@ -77,6 +77,10 @@ CHECKS={
    text="Every accepted run of the shared streams (pool, corpus + one-line-edit neighbourhood, context-state representatives, directive-variant sequences, paste graphs, include scenarios, option sets; thorough: the scanner-state x token product too) and of an exhaustive name sweep (all strings of length <=2 / <=3 over 11 stress characters incl. invalid UTF-8 in 14 name-bearing positions, JSON-RPC id collisions) is checked on the bytes: valid UTF-8 JSON, no repeated key in any object (order-preserving reader), indented = compact, key = id = protocol+method+path, mutual tag/interaction references, used types and enums exist, bodies present with format matching notation, Title() = info.title.",
    ref="DESIGN.md §5 C09", note="Only accepted runs are judged; the streams are regenerated by this check (shared code, not shared results).",
    technique=T_MC+"bounded-exhaustive input streams with a structural oracle on the serialised bytes"),
+ "C02":dict(engine="E-STREAMS",
+   text="Every rejected run of the shared streams (corpus one-line-edit neighbourhood, context-state representatives, directive-variant sequences under LF / CRLF / CR, paste graphs, include scenarios and all include graphs over 3 files, option sets, names; thorough: scanner-state x token product) and of dedicated include structures (6 structures x 7 fault kinds x every faulty file x 3 line-end conventions) is checked: index within the located file, line and quote recomputed from the source by the reference (strict on single-convention files), include trace present for faults outside the root, first entry = located file and line, every further entry = the line where the INCLUDE of the previous entry's file really is, last entry = root.",
+   ref="DESIGN.md §5 C02", note="'Inside the span of the directive at fault' is decided by C11 where the culprit is known. A message that wraps another diagnostic with its trace (PASTE of a faulty macro) is not judged. One open finding pinned by the repository's own fixture (tracer cached per including file).",
+   technique=T_MC+"bounded-exhaustive rejected-input streams and include structures with a reference recomputation of line / quote / trace"),
 }
 ENGINES=[
  {"name":"E-SCAN","path":"internal/escan","serves_properties":["C14"],"kind_free_text":"explicit-state BFS over the real scanner.Next with a per-byte hook; abstract key cross-checked by second representatives"},
